@@ -149,6 +149,13 @@ func (t *decTr) stmt(s ast.Stmt) string {
 			}
 			return "DSwitch " + q(t.render(x.Tag)) + " [" + strings.Join(cases, "; ") + "]"
 		}
+	case *ast.RangeStmt:
+		// for _, v := range l { body }
+		if k, ok := x.Key.(*ast.Ident); ok && k.Name == "_" && x.Tok == token.DEFINE {
+			if v, ok := x.Value.(*ast.Ident); ok {
+				return "DRange " + q(v.Name) + " " + q(t.render(x.X)) + " " + t.stmts(x.Body.List)
+			}
+		}
 	case *ast.ExprStmt:
 		if c, ok := x.X.(*ast.CallExpr); ok {
 			f := t.render(c.Fun)
